@@ -546,9 +546,9 @@ def _h(world: World, kind: str) -> None:
 # StandaloneTCPNetworkServer / StandaloneUDPNetworkServer (servers/_base.py BaseStandaloneNetworkServerImpl) and
 # NetworkServerThread, driven by 1-3 simulated threads under the baton scheduler (vsim.threads).  Same reference machine
 # (atomic=(): where a call takes effect between invoke and return is unknown), same extra clauses.
-THREAD_OPS = ("serve_bg", "shutdown", "client", "is_serving", "close", "serve", "serve_nst", "client", "shutdown_t", "close")
+THREAD_OPS = ("serve_bg", "shutdown", "client", "is_serving", "close", "serve", "serve_nst", "client", "shutdown_t", "close", "join_nst", "serve_nst", "join_nst_t")
 SHUTDOWN_TIMEOUTS = (0.0, 1 / 64.0, 8 / 64.0)
-UNTIMED_AS = 4.0
+JOIN_TIMEOUTS = (1 / 64.0, 8 / 64.0, 1.0)
 
 
 class _RecordedServer:
@@ -575,6 +575,7 @@ class _RecordedServer:
         class Up:
             def set(_self) -> None:
                 rec.up(opid)
+                run.up_actors.add(actor)
                 if is_up_event is not None:
                     is_up_event.set()
 
@@ -587,10 +588,12 @@ class _RecordedServer:
             name = type(exc).__name__
             run.current.pop(actor, None)
             rec.ret(actor, opid, SERVE_ERRORS.get(name, name), f"{name}: {exc}"[:300])
+            run.ret_actors.add(actor)
             raise
         rec._live()
         run.current.pop(actor, None)
         rec.ret(actor, opid, L.NONE)
+        run.ret_actors.add(actor)
 
     def shutdown(self, timeout: float | None = None) -> None:
         run, rec, actor = self._run, self._run.rec, self._actor_of()
@@ -598,12 +601,6 @@ class _RecordedServer:
         opid = rec.invoke(actor, L.SHUTDOWN)
         run.current[actor] = f"shutdown#{opid}"
         t0 = run.world.now
-        if timeout is None and run.world.avoid_known:
-            # open finding (a shutdown() that did stop its server can still block on the NEXT serve_forever() when another thread
-            # restarts the server before this call reaches its wait: the shutdown event is shared between runs): API.md rule 6 —
-            # the untimed call is issued with a long timeout so that this class ends as "timed_out" instead of a hang; the
-            # remaining runs keep the untimed call.  Drop this block once the event is per serve_forever() call.
-            timeout = UNTIMED_AS
         try:
             self._srv.shutdown(timeout) if timeout is not None else self._srv.shutdown()
         except ThreadAbort:
@@ -683,10 +680,15 @@ class ThreadRun:
             t = world.choose("task", self.ntasks)
             op = THREAD_OPS[world.choose("op", len(THREAD_OPS))]
             arg = SHUTDOWN_TIMEOUTS[world.choose("shutdown_timeout", len(SHUTDOWN_TIMEOUTS))] if op == "shutdown_t" else None
+            if op == "join_nst_t":
+                arg = JOIN_TIMEOUTS[world.choose("join_timeout", len(JOIN_TIMEOUTS))]
             self.programs[t].append((op, arg, self._draw_yield()))
         self.current: dict[str, str] = {}
         self.parked = [False] * self.ntasks
         self.done = [False] * self.ntasks
+        self.nsts: list[dict] = []  # NetworkServerThread objects: {"t", "name", "start_returned", "finished"}
+        self.up_actors: set[str] = set()  # actors whose serve_forever signalled "up"
+        self.ret_actors: set[str] = set()  # actors whose serve_forever has returned / raised
         self.bg: list[Any] = []  # every thread started for a serve_forever
         self.nclients = 0
         self.actor_by_ident: dict[int, str] = {}
@@ -843,6 +845,8 @@ class ThreadRun:
         run = self
         if nst:
 
+            info: dict = {"name": name, "start_returned": False, "finished": False}
+
             class Recorded(NetworkServerThread):
                 def run(self) -> None:
                     run.register(name)
@@ -852,12 +856,25 @@ class ThreadRun:
                         raise
                     except Exception:
                         pass  # already recorded as the outcome of serve_forever
+                    finally:
+                        if run.rec.sched is None or not run.rec.sched.aborting:
+                            info["finished"] = True
+                            run.world.log("nst", name, "finished")
 
             t: Any = Recorded(self.srv, name=name)
+            info["t"] = t
             self.bg.append(t)
-            self.current[self.actor()] = "NetworkServerThread.start"
-            t.start()  # returns once the server is up or serve_forever has ended
-            self.current.pop(self.actor(), None)
+            self.nsts.append(info)
+            me = self.actor()
+            self.current[me] = "NetworkServerThread.start"
+            self.world.log("nst", name, "start")
+            t.start()  # contract: returns once the server is ready for accepting requests (or serve_forever has ended)
+            self.rec._live()
+            self.current.pop(me, None)
+            info["start_returned"] = True
+            self.world.log("nst", name, "start-returned")
+            if name not in self.up_actors and name not in self.ret_actors:
+                self.world.fail(Violation("NetworkServerThread.start-waits-until-the-server-is-up", f"NetworkServerThread.start() of {name} returned but its serve_forever has neither signalled 'up' nor ended; history: {self.rec.model.history[-20:]}", key=f"C18/{self.harness}/nst/start-returned-before-up"))
             return t
 
         def target() -> None:
@@ -873,6 +890,54 @@ class ThreadRun:
         self.bg.append(t)
         t.start()
         return t
+
+    def join_nst(self, idx: int | None, timeout: float | None, info: dict | None = None) -> None:
+        """NetworkServerThread.join(timeout): shuts the server down, then waits for the thread; returns only after the thread ended
+        (untimed) / within `timeout` virtual seconds in total, and before that only if the thread ended (timed)."""
+        me = self.actor()
+        if info is None:
+            if not self.nsts:
+                self.world.log("nst", me, "join-skipped")
+                return
+            info = self.nsts[-1]
+        name = info["name"]
+        started = info["start_returned"]
+        was_up = name in self.up_actors and name not in self.ret_actors
+        self.world.log("nst", me, "join", name, -1.0 if timeout is None else timeout)
+        self.current[me] = f"join#{name}"
+        t0 = self.world.now
+        # Untimed join of a thread whose server is not up yet (or is already over) may legitimately wait for somebody else's
+        # shutdown (shutdown of a server that is not running is a no-op): then the epilogue may help.  When the server IS up, join()
+        # must stop it by itself.
+        if idx is not None and timeout is None and not was_up:
+            self.parked[idx] = True
+        try:
+            try:
+                info["t"].join(timeout)
+            finally:
+                if idx is not None:
+                    self.parked[idx] = False
+        except RuntimeError as exc:
+            self.rec._live()
+            self.current.pop(me, None)
+            if not started and "before it is started" in str(exc):
+                self.world.log("nst", me, "join-not-started")
+                return
+            self.world.fail(Violation("NetworkServerThread.join-contract", f"join({timeout}) of {name} raised RuntimeError: {exc}", key=f"C18/{self.harness}/nst/join-raises"))
+        self.rec._live()
+        self.current.pop(me, None)
+        elapsed = self.world.now - t0
+        ended = info["finished"]
+        self.world.log("nst", me, "join-returned", name, ended)
+        self.world.progress(1)
+        if timeout is None:
+            if not ended or info["t"].is_alive():
+                self.world.fail(Violation("NetworkServerThread.join-returns-after-the-thread-ended", f"join() of {name} returned but the thread has not ended (finished={ended}, is_alive={info['t'].is_alive()}); history: {self.rec.model.history[-20:]}", key=f"C18/{self.harness}/nst/join-returned-early"))
+        else:
+            if elapsed > timeout + 1e-9:
+                self.world.fail(Violation("NetworkServerThread.join-timeout-is-a-total-budget", f"join({timeout}) of {name} took {elapsed} virtual seconds (the time taken by shutdown() must be subtracted)", key=f"C18/{self.harness}/nst/join-timeout-exceeded"))
+            if elapsed < timeout - 1e-9 and not ended:
+                self.world.fail(Violation("NetworkServerThread.join-returns-after-the-thread-ended", f"join({timeout}) of {name} returned after {elapsed} s < timeout although the thread has not ended; history: {self.rec.model.history[-20:]}", key=f"C18/{self.harness}/nst/join-returned-early"))
 
     def caller(self, idx: int) -> None:
         import time
@@ -908,6 +973,10 @@ class ThreadRun:
                         self.srv.is_serving()
                     elif op == "client":
                         self.do_client()
+                    elif op == "join_nst":
+                        self.join_nst(idx, None)
+                    elif op == "join_nst_t":
+                        self.join_nst(idx, arg)
                     else:  # pragma: no cover
                         raise HarnessError(op)
                 except ThreadAbort:
@@ -1005,6 +1074,8 @@ class ThreadRun:
         leaked = sorted(s.label for s in self.server_sockets() if not s.sim_closed)
         if leaked:
             self.world.fail(Violation("listeners-closed-after-server_close", f"sockets created by the server are still open after server_close() and after every serve_forever has returned: {leaked}; history: {self.rec.model.history[-30:]}", key=f"C18/{self.harness}/socket-leak-at-end"))
+        for info in self.nsts:  # the helper's own join(): one more shutdown, then the thread must be over
+            self.join_nst(None, None, info)
         for t in callers + self.bg:
             threading.Thread.join(t, CALL_BOUND)
             if t.is_alive():
